@@ -330,11 +330,11 @@ fn chunk_prefix<const B: usize, const N: usize, const T: usize>() {
 }
 
 /*@gen
-{"name": "c17_chunk_prefix_buffered{0}_write{1}", "call": "chunk_prefix::<{0}, {1}, {2}>()", "unwind": 12, "stubs": ["bytes", "bytesmut", "fmt", "nofree"], "core": true,
+{"name": "c17_chunk_prefix_buffered{0}_write{1}", "call": "chunk_prefix::<{0}, {1}, {2}>()", "unwind": "max(12, {2} + 4)", "stubs": ["bytes", "bytesmut", "fmt", "nofree"], "core": true,
  "bound": "chunk-size line: {0} byte(s) of an incomplete line already buffered, a write of exactly {1} bytes; contents symbolic over the alphabet 0, 1, a, CR, LF",
  "desc": "one transition of the chunk-header state equals the reference: incomplete lines are buffered losslessly, malformed ones rejected, a complete line yields its hexadecimal size and returns exactly the bytes that follow it",
  "encodes": ["http_forwarded_stream::ForwardedStreamSink::on_encoded_chunk_prefix", "httparse::parse_chunk_size (third-party, executed for real)"],
- "quick": "[(0,1,1),(0,3,3),(0,5,5),(1,2,3),(2,3,5),(3,1,4)]", "thorough": "[(0,2,2),(0,4,4),(1,1,2),(1,4,5),(2,1,3),(2,2,4),(4,1,5)]"}
+ "quick": "[(0,1,1),(0,3,3),(0,5,5),(1,2,3),(2,3,5),(3,1,4),(0,11,11)]", "thorough": "[(0,2,2),(0,4,4),(1,1,2),(1,4,5),(2,1,3),(2,2,4),(4,1,5)]"}
 @*/
 
 // ---------------------------------------------------------------------------------------------
